@@ -47,7 +47,7 @@ def resolve(s, L, depth=0):
         tgt = tgt.strip('()')
         if tgt.startswith('&'):
             tgt = tgt[1:].strip('()')          # pointer to a member (ri = &(r->ri_whfast)): ri->x is r.ri_whfast.x
-        if w in L and w != 'r' and re.match(r'^[A-Za-z_][\w.]*$', tgt):
+        if w in L and w != 'r' and re.match(r'^[A-Za-z_][\w.\[\]]*$', tgt):
             return tgt + '.'
         return m.group(0)
     return re.sub(r'(?<![\w.])([A-Za-z_]\w*)\.(?=[A-Za-z_])', rep_alias, s)
